@@ -38,7 +38,7 @@ for name in sorted(os.listdir(src)):
         res['tests_passed'] = int(m.group(1)) if m else 0
         res['tests_failed'] = int(f.group(1)) if f else 0
         ev = tempfile.mkdtemp(prefix='mutev_', dir='/tmp')
-        c = sh('%s/check %s --tier %s' % (V, pid, tier), env=dict(os.environ, VERIF_REPO=wt, VERIF_EVIDENCE_DIR=ev, VERIF_REPLAY_DIR=ev), timeout=7200)
+        c = sh('%s/check %s --tier %s' % (V, pid, tier), env=dict(os.environ, VERIF_REPO=wt, VERIF_EVIDENCE_DIR=ev, VERIF_REPLAY_DIR=ev), timeout=900)
         res['check_rc'] = c.returncode
         res['check_verdict'] = {0: 'MISSED', 1: 'CAUGHT'}.get(c.returncode, 'MACHINERY')
         res['check_keys'] = re.findall(r'violation key=(\S+)', c.stdout)[:6]
